@@ -202,6 +202,30 @@ def one(ctx, cg, cgsat, props, captured, cid, spec, A):
             k = count_models(fv[n], [S.vars["v!" + s] for s in spn])
             ctx.count("model_count_certificates")
             ctx.side("signal_probability-value", p * (2 ** len(spn)) == k, "signal_probability:wrong", f"signal_probability({n!r}) = {p} but {k}/{2 ** len(spn)} startpoint valuations make it 1", det)
+        if not A.is_acyclic():
+            # nodes whose cone contains a loop: "n is 1 under a startpoint valuation" is read relationally (some consistent valuation of the
+            # cone has n = 1) and only claimed where that is unambiguous: no startpoint valuation admits both n = 0 and n = 1
+            from cgv import sem as semmod
+            loopy = [n for n in nodes if n not in coneok]
+            for n in (loopy if (not ctx.quick or len(loopy) <= 4) else sorted(rng.sample(loopy, 4))):
+                cone = {n} | nx.ancestors(g, n)
+                sp_ = A.spec()
+                C = Net.from_spec({"name": sp_["name"], "nodes": [x for x in sp_["nodes"] if x[0] in cone], "edges": [e for e in sp_["edges"] if e[0] in cone and e[1] in cone], "bbs": {}})
+                spn = sorted(cone & A.startpoints())
+                V1, V2 = semmod.boolvars("p!", C.nodes()), semmod.boolvars("q!", C.nodes())
+                amb = z3.Solver()
+                amb.add(semmod.rel(C, V1), semmod.rel(C, V2), V1[n], z3.Not(V2[n]), *[V1[s_] == V2[s_] for s_ in spn])
+                if amb.check() != z3.unsat:
+                    ctx.count("signal_probability_ambiguous_cyclic_cone")
+                    continue
+                p, e = call(props.signal_probability, build(spec), n, approx=False)
+                det = {"case": cid, "circuit": spec if len(nodes) < 25 else None, "node": n, "cone": "contains a loop; value of the node unique for every startpoint valuation that has a stable state"}
+                if e is not None:
+                    ctx.side("signal_probability-raises", False, f"signal_probability:raises:{type(e).__name__}", f"signal_probability({n!r}) raised {e!r}", det)
+                    continue
+                k = count_models(z3.And(semmod.rel(C, V1), V1[n]), [V1[s_] for s_ in spn])
+                ctx.count("model_count_certificates")
+                ctx.side("signal_probability-value-cyclic-cone", p * (2 ** len(spn)) == k, "signal_probability:wrong", f"signal_probability({n!r}) = {p} but {k}/{2 ** len(spn)} startpoint valuations have a stable state with the node at 1", det)
 
 
 def approx(ctx, cgsat, captured, spec, A, asg, sp, true_count, det):
@@ -216,7 +240,11 @@ def approx(ctx, cgsat, captured, spec, A, asg, sp, true_count, det):
         os.environ["CGV_DIMACS_OUT"] = out
         try:
             captured.pop("cnf_variables", None)
-            r, e = call(cgsat.approx_model_count, build(spec), dict(asg))
+            # the sampling set left to the default, or given explicitly (the same startpoints) as a list / a one-shot iterator ("iter of str")
+            how = len(asg) % 3
+            kw_sp = {} if how == 0 else {"startpoints": (sorted(sp) if how == 1 else iter(sorted(sp)))}
+            det = dict(det, startpoints_argument=["default", "list of all startpoints", "iterator over all startpoints"][how])
+            r, e = call(cgsat.approx_model_count, build(spec), dict(asg), **kw_sp)
         finally:
             os.environ.pop("CGV_DIMACS_OUT", None)
         if e is not None:
